@@ -332,6 +332,7 @@ type world struct {
 	holdLsn  map[uint64]bool
 	gates    []gate // calls being held (not yet released)
 	held     int    // calls ever held
+	noHolds  bool   // the release phase has begun: nothing is held any more
 	ended    bool   // the case is over: nothing is logged or held any more
 	endCh    chan struct{}
 	lastSink time.Time // arrival of the last call / accept
@@ -564,6 +565,7 @@ func (w *world) kinesisHandler(byLsn map[uint64]Change) http.HandlerFunc {
 			}
 			w.called[r.Lsn]++
 		}
+		hold = hold && !w.noHolds
 		kk := k
 		w.addLocked(LogEv{K: "call", Call: &kk, Recs: recs, Note: note})
 		w.lastSink = time.Now()
@@ -1022,6 +1024,7 @@ func runCase(c Case) (res result) {
 		w.mu.Lock()
 		gs := append([]gate{}, w.gates...)
 		w.gates = nil
+		w.noHolds = true
 		w.mu.Unlock()
 		sort.Slice(gs, func(i, j int) bool { return gs[i].call < gs[j].call })
 		for _, g := range gs {
@@ -1030,6 +1033,12 @@ func runCase(c Case) (res result) {
 			close(g.ch)
 			time.Sleep(stretched(40 * time.Millisecond))
 		}
+	}
+	if c.Stall > 0 {
+		// the stall shape is about C01 only: it ends when the held calls have been accepted (its last
+		// acknowledgement would need up to two more ledger periods)
+		poll(func() bool { return w.sinkSettledLocked() && len(w.gates) == 0 }, min(deadline, time.Now().Add(stretched(time.Second))))
+		return finish("released")
 	}
 	// phase 2: the last COMMIT is acknowledged, or two full ledger periods pass after the last activity
 	last := c.lastCommit()
@@ -1486,26 +1495,34 @@ func stallShape(rng *rand.Rand) Case {
 
 func genCase(rng *rand.Rand) Case {
 	roll := rng.Intn(16)
-	if roll == 15 || roll == 14 {
+	if roll == 15 {
 		return stallShape(rng)
 	}
 	c := genConfig(rng)
 	switch {
-	case roll < 6:
+	case roll < 7:
 		c.Mode = "gen-plain"
 		genStream(rng, &c, 1+rng.Intn(6), 4)
-	case roll < 13:
+	case roll < 14:
 		c.Mode = "gen-slow-worker"
 		genStream(rng, &c, 2+rng.Intn(5), 4)
+		// mostly not the very first batch, so that something acknowledgeable lies before the held one
+		if c.Txns[1].PauseMs == 0 {
+			c.Txns[1].PauseMs = 60 + rng.Intn(100)
+		}
+		first := 1
+		if rng.Intn(4) == 0 {
+			first = 0
+		}
 		for k := 1 + rng.Intn(2); k > 0; k-- {
 			if rng.Intn(2) == 0 {
-				c.Hold = append(c.Hold, rng.Intn(4))
+				c.Hold = append(c.Hold, first+rng.Intn(3))
 			} else {
-				t := c.Txns[rng.Intn(len(c.Txns))]
+				t := c.Txns[first+rng.Intn(len(c.Txns)-first)]
 				if len(t.Changes) > 0 {
 					c.HoldLsn = append(c.HoldLsn, t.Changes[rng.Intn(len(t.Changes))].Lsn)
 				} else {
-					c.Hold = append(c.Hold, rng.Intn(3))
+					c.Hold = append(c.Hold, first+rng.Intn(3))
 				}
 			}
 		}
@@ -1562,7 +1579,7 @@ func loadCorpus(dir string) []Case {
 func (c Case) cost() int {
 	switch {
 	case c.Stall > 0:
-		return 16
+		return 12
 	case len(c.Hold)+len(c.HoldLsn) > 0:
 		return 10
 	}
@@ -1644,7 +1661,7 @@ func init() {
 		for i := 0; i < n; i++ {
 			cases = append(cases, genCase(rng))
 		}
-		rep.Rule = "corpus first (directed shapes: interleaved positions across the 4 GiB boundary, filters incl. a fully filtered transaction, held sink calls, the stalled-tracker race, the three PutRecords limits), then seeded cases: 6/16 plain, 7/16 with 1-2 held sink calls (slow worker; released after a ledger tick), 1/16 limits (>500 records or >5 MiB with an over-size row), 2/16 stalled progress tracker with an earlier transaction's batch held. 1-6 transactions, 0-4 changes over public.a/b/c and a quoted table, INSERT/UPDATE/DELETE, half with interleaved positions, 1/6 across 0/FFFFFFxx->1/xx, 1/6 high positions, 1/6 whitelist, 1/6 blacklist, 1/4 configured through environment variables. Each case = one run of the REAL BINARY (main.go + app/runner.go wiring) with real flags --workers 1-4, --partition-method (4), --partition-count 1-4, --batcher-routing-method (2), --batch-flush-update-age / --batch-flush-max-age / --batcher-tick-rate 20-60 ms (either age may be the larger), --batch-queue-depth 1-4, --client-buffer-size default/16/256, kinesis --endpoint <fake>. Non-trivial: at least 2 sink calls and (a call was really held, or the stall was achieved, or at least 2 Kinesis partition keys, or a filter removed something); distinct by the case description. No Coq model is evaluated by this component."
+		rep.Rule = "corpus first (directed shapes: interleaved positions across the 4 GiB boundary, filters incl. a fully filtered transaction, held sink calls, the stalled-tracker race, the three PutRecords limits), then seeded cases: 7/16 plain, 7/16 with 1-2 held sink calls (slow worker; released after a ledger tick), 1/16 limits (>500 records or >5 MiB with an over-size row), 1/16 stalled progress tracker with an earlier transaction's batch held. 1-6 transactions, 0-4 changes over public.a/b/c and a quoted table, INSERT/UPDATE/DELETE, half with interleaved positions, 1/6 across 0/FFFFFFxx->1/xx, 1/6 high positions, 1/6 whitelist, 1/6 blacklist, 1/4 configured through environment variables. Each case = one run of the REAL BINARY (main.go + app/runner.go wiring) with real flags --workers 1-4, --partition-method (4), --partition-count 1-4, --batcher-routing-method (2), --batch-flush-update-age / --batch-flush-max-age / --batcher-tick-rate 20-60 ms (either age may be the larger), --batch-queue-depth 1-4, --client-buffer-size default/16/256, kinesis --endpoint <fake>. Non-trivial: at least 2 sink calls and (a call was really held, or the stall was achieved, or at least 2 Kinesis partition keys, or a filter removed something); distinct by the case description. No Coq model is evaluated by this component."
 		if _, err := buildBinary(); err != nil {
 			rep.Notes = append(rep.Notes, "every case dropped: the pg-bifrost binary could not be built: "+tail(err.Error(), 1500))
 			rep.Distribution["dropped:build"] += len(cases)
@@ -1704,7 +1721,9 @@ func init() {
 			if r.HeldCalls > 0 {
 				core.Bump(rep, "obs:cases-with-a-held-call")
 			}
-			if !r.FinalAcked && !r.C02Neg && !r.SelfExit {
+			if c.Stall > 0 && !r.SelfExit {
+				core.Bump(rep, "c02-not-judged(stall shape)")
+			} else if !r.FinalAcked && !r.C02Neg && !r.SelfExit {
 				core.Bump(rep, "c02-undecided(time limit)")
 			}
 			calls, acks := 0, 0
